@@ -49,7 +49,7 @@ var EquivSpellings = map[string][]string{
 	},
 }
 
-var ResourceNames = []string{"r1", "r2", "r3", "r4", "r5"}
+var ResourceNames = []string{"r1", "r2", "r3", "r4", "r5", "r6"}
 
 // ForeignTargets are targets of unsafe requests on origins where nothing is stored (one per scheme).
 var ForeignTargets = []string{"http://c.test/unsafe", "https://c.test:8443/unsafe", "https://c.test/unsafe", "http://a.test:8080/unsafe", "https://a.test/unsafe"}
@@ -68,6 +68,10 @@ func init() {
 	base := "http://a.test/k216/"
 	pad := strings.Repeat("x", 216-len(base))
 	EquivSpellings["r5"] = []string{base + pad, "HTTP://A.TEST:80/k216/" + pad, "http://a.test/k216/./" + pad}
+	// r6: a link-local literal with a zone identifier - a host whose decoded text
+	// ("[fe80::1%eth0]") does not parse again
+	EquivSpellings["r6"] = []string{"http://[fe80::1%25eth0]:8080/z/x?q=1", "HTTP://[FE80::1%25eth0]:8080/z/x?q=1", "http://[fe80::1%25eth0]:8080/z/./x?q=1",
+		"http://[fe80::1%25eth0]:8080/z/y/../x?q=1", "http://[fe80::1%25eth0]:8080/%7A/x?q=1"}
 }
 
 // ExactLenResource registers (once) a resource whose canonical URI is exactly n bytes long.
@@ -631,6 +635,11 @@ func C20(t *rapid.T) *world.Scenario {
 			if rq.CancelNs == 0 {
 				rq.CancelNs = 1
 			}
+		}
+		if Pct(t, lbl+"-legacy", 15) {
+			// the caller's cancellation expressed through Request.Cancel (http.Client does that for
+			// its Timeout when the transport is not its own): closed once the caller is done
+			rq.LegacyCancel = Pick(t, lbl+"-legacyv", "pre", "post", "post", "open")
 		}
 		var lat int64
 		kind := "resp"
